@@ -939,6 +939,9 @@ func (e *Env) call(x *ast.CallExpr) *Val {
 		if _, isSl := v.Ty.Underlying().(*types.Slice); isSl {
 			t = "(sl_arr " + v.T + ")"
 		}
+		if _, isIf := v.Ty.Underlying().(*types.Interface); isIf {
+			t = "(if_val " + v.T + ")" // the pointer an interface value holds
+		}
 		return &Val{T: "(> " + t + " " + e.old.Alloc + ")", Ty: boolT}
 	case "allocated":
 		v := argv(0)
@@ -946,6 +949,9 @@ func (e *Env) call(x *ast.CallExpr) *Val {
 		if v.Ty != nil {
 			if _, isSl := v.Ty.Underlying().(*types.Slice); isSl {
 				t = "(sl_arr " + v.T + ")"
+			}
+			if _, isIf := v.Ty.Underlying().(*types.Interface); isIf {
+				t = "(if_val " + v.T + ")"
 			}
 		}
 		return &Val{T: "(and (< 0 " + t + ") (<= " + t + " " + e.st.Alloc + "))", Ty: boolT}
